@@ -7,7 +7,7 @@
    prs (fmt x) = Some x, no TAB/LF in fmt x, fmt x <> '.' (part of [gff_wf]). *)
 From Coq Require Import List NArith Lia.
 From NV Require Import Base.Percent Base.PercentProofs Text.TextBase Text.TextBaseProofs
-  Text.Gff Text.GffProofs Text.Gtf Text.GtfProofs Text.Bed Text.BedProofs Text.BedRec Text.BedRecProofs.
+  Text.Gff Text.GffProofs Text.Gtf Text.GtfProofs Text.Bed Text.BedProofs Text.BedRec Text.BedRecProofs Text.GffLine Text.GffLineProofs Text.TightProofs.
 Import ListNotations.
 Open Scope N_scope.
 
@@ -218,6 +218,117 @@ Theorem c18_bed_name_roundtrip : forall nm, nm <> Some [46] ->
   bed_parse_name (match nm with Some s => s | None => [46] end) = nm.
 Proof. exact bed_name_roundtrip. Qed.
 Print Assumptions c18_bed_name_roundtrip.
+
+(* ---- GFF3 line kinds: directives, comments, blank lines, record lines ---- *)
+(* A directive `##key[ value]` (typed gff-version / sequence-region / genome-build values are
+   written as their text; the reader keeps text) inside any file: the line is read whole, is not
+   skipped as blank, is classified as a directive, and key and value text come back, lazily and
+   in the owned LineBuf.  [directive_ok]: no whitespace byte in the key, no LF in the value
+   text and no CR at its end -- exactly what the reader needs (c18_gff_directive_refuted). *)
+Theorem c18_gff_directive_roundtrip : forall prs d line rest,
+  directive_ok d -> gff_write_directive d = Ok line ->
+  gff_raw_line (line ++ 10 :: rest) = (line, rest)
+  /\ forallb is_ws line = false
+  /\ gff_classify prs line = GDirective (d_key d) (directive_text_value d)
+  /\ gff_line_buf prs line = BDirective (d_key d) (directive_text_value d).
+Proof. exact gff_directive_roundtrip. Qed.
+Print Assumptions c18_gff_directive_roundtrip.
+
+Theorem c18_gff_directive_refuted :
+  (exists d line, gff_write_directive d = Ok line /\
+     gff_classify (fun _ => None) line <> GDirective (d_key d) (directive_text_value d))
+  /\ (exists d line, no_ws (d_key d) /\ gff_write_directive d = Ok line /\
+        fst (gff_raw_line (line ++ [10])) <> line).
+Proof. exact gff_directive_refuted. Qed.
+Print Assumptions c18_gff_directive_refuted.
+
+Theorem c18_gff_comment_roundtrip : forall prs s rest,
+  ~ In 10 s -> strip_cr s = s -> hd 0 s <> 35 ->
+  gff_raw_line (gff_write_comment s ++ 10 :: rest) = (gff_write_comment s, rest)
+  /\ forallb is_ws (gff_write_comment s) = false
+  /\ gff_classify prs (gff_write_comment s) = GComment s.
+Proof. exact gff_comment_roundtrip. Qed.
+Print Assumptions c18_gff_comment_roundtrip.
+
+(* known class gff3-comment-linebuf-keeps-hash: the OWNED comment of line_bufs() is '#' + the
+   comment, and writing that back gives a directive line *)
+Theorem c18_gff_comment_linebuf_refuted : forall prs s, hd 0 s <> 35 ->
+  gff_line_buf prs (gff_write_comment s) = BComment (35 :: s) /\
+  gff_write_comment (35 :: s) = 35 :: 35 :: s.
+Proof. exact gff_comment_linebuf_refuted. Qed.
+Print Assumptions c18_gff_comment_linebuf_refuted.
+
+(* a record line the writer accepts is never taken for a directive, a comment or a blank line:
+   '#' (and '>') in a sequence id are percent-encoded, an empty id leaves a leading TAB *)
+Theorem c18_gff_record_line_kind : forall fmt r line,
+  bytes_ok (f_seqid r) -> gff_write fmt r = Ok line ->
+  gff_line_kind line = KRecord /\ forallb is_ws line = false.
+Proof. exact gff_record_line_kind. Qed.
+Print Assumptions c18_gff_record_line_kind.
+
+Theorem c18_gff_record_line_classified : forall fmt prs r line rest,
+  gff_wf fmt prs r -> gff_write fmt r = Ok line ->
+  gff_raw_line (line ++ 10 :: rest) = (line, rest)
+  /\ forallb is_ws line = false
+  /\ gff_classify prs line = GRecord (Rec (gff_expected r)).
+Proof. exact gff_record_line_classified. Qed.
+Print Assumptions c18_gff_record_line_classified.
+
+Theorem c18_gff_read_lines_fuel : forall s f1 f2, (length s < f1)%nat -> (length s < f2)%nat ->
+  gff_read_lines f1 s = gff_read_lines f2 s.
+Proof. exact gff_read_lines_fuel. Qed.
+Print Assumptions c18_gff_read_lines_fuel.
+
+Example directive_demo_ok :
+  directive_ok {| d_key := key_sequence_region; d_value := Some (DRegion [99; 116; 103] 1 1497228) |}.
+Proof.
+  split; [repeat constructor|]. intros t E. vm_compute in E. injection E as E. subst t.
+  split; [|reflexivity]. intro H. repeat (destruct H as [H|H]; [discriminate|]). exact H.
+Qed.
+
+(* ---- the two GFF3 known classes, tight ---- *)
+(* gff3-seqid-not-decoded: for every well-formed record the id comes back equal IF AND ONLY IF
+   no byte of it is in the seqid encode set (its encoding is the identity) *)
+Theorem c18_gff_seqid_roundtrip_iff : forall fmt prs r line,
+  gff_wf fmt prs r -> gff_write fmt r = Ok line ->
+  ((exists l, gff_read prs (line ++ [10]) = Rec l /\ l_seqid l = f_seqid r) <-> seqid_plain r).
+Proof. exact gff_seqid_roundtrip_iff. Qed.
+Print Assumptions c18_gff_seqid_roundtrip_iff.
+
+Theorem c18_pct_enc_id_iff : forall S s, pct_enc S s = s <-> Forall (fun b => S b = false) s.
+Proof. exact pct_enc_id_iff. Qed.
+Print Assumptions c18_pct_enc_id_iff.
+
+(* gff3-source-type-not-encoded: [gff_wf] asks only that source and type have no TAB and no LF;
+   CR, '%', look-alike escapes, control and non-ASCII bytes DO round-trip through the code
+   (wild_source_wf below is inside c18_gff_record_roundtrip); just outside: TAB in source
+   (c18_gff_source_refuted) and LF in type *)
+Theorem c18_gff_type_lf_refuted : exists r line,
+  gff_write (fun _ => []) r = Ok line /\
+  gff_read (fun _ => None) (line ++ [10]) = LineErr UnexpectedEof.
+Proof. exact gff_type_lf_refuted. Qed.
+Print Assumptions c18_gff_type_lf_refuted.
+
+Example wild_source_roundtrip : gff_wf (fun _ => []) (fun _ => None) wild_source /\ seqid_plain wild_source.
+Proof. exact wild_source_wf. Qed.
+
+(* ---- lazy view = owned record, GTF and BED ---- *)
+Theorem c18_gtf_lazy_eq_owned : forall l f, gtf_owned l = Ok f ->
+  l_seqid l = f_seqid f /\ l_source l = f_source f /\ l_type l = f_type f
+  /\ l_start l = Ok (f_start f) /\ l_end l = Ok (f_end f)
+  /\ l_score l = option_map Ok (f_score f) /\ l_strand l = Ok (f_strand f)
+  /\ l_phase l = option_map Ok (f_phase f) /\ l_attrs l = (f_attrs f, None).
+Proof. exact gtf_lazy_eq_owned. Qed.
+Print Assumptions c18_gtf_lazy_eq_owned.
+
+Theorem c18_bed_lazy_eq_owned : forall n v b, bed_owned n v = Ok b ->
+  bv_name v = Ok (b_name b) /\ bv_start v = Ok (b_start b) /\ bv_end v = Ok (b_end b)
+  /\ (forall x, bv_nm v = Some x -> x = Ok (b_nm b))
+  /\ (forall x, bv_score v = Some x -> x = Ok (b_score b))
+  /\ (forall x, bv_strand v = Some x -> x = Ok (b_strand b))
+  /\ bv_others v = Ok (b_others b) /\ b_n b = n.
+Proof. exact bed_lazy_eq_owned. Qed.
+Print Assumptions c18_bed_lazy_eq_owned.
 
 (* ---- non-vacuity ---- *)
 Definition demo_fmt (x : N) : list N := [49; 46; 53].          (* '1.5' *)
